@@ -241,7 +241,10 @@ class ModelRaises(Exception):
     """The reference model predicts that rendering raises this class."""
 
 
-NAMES = ["x", "y", "item", "i"]
+# (also names of dictionary methods: repeat.NAME is the loop's state, not
+# a method of the repeat dictionary)
+NAMES = ["x", "y", "item", "i", "items", "keys", "values", "get", "pop",
+         "copy", "update", "x", "i"]
 TAGS = ["li", "b", "tr", "div"]
 
 
@@ -266,13 +269,18 @@ def seq_strategy(depth):
                                        enumerate(dict.fromkeys(l))]], words),
         st.builds(lambda l: ["str", "".join(l)], words),
         st.just(["none"]),
+        # a mapping itself whose keys are pairs: iterating it gives the keys
+        st.builds(lambda l: ["dict", [[k, ["int", n]] for n, k in
+                                      enumerate(dict.fromkeys(l))]],
+                  st.lists(st.sampled_from(["ab", "cd", "xy", "é1"]),
+                           max_size=3)),
     )
 
 
 @st.composite
 def loops(draw, depth):
     seq = draw(seq_strategy(depth))
-    unpack = seq[0] == "items"
+    unpack = seq[0] in ("items", "dict")
     names = ["k", "v"] if unpack else [draw(st.sampled_from(NAMES))]
     inner = None
     if depth > 1 and draw(st.booleans()):
